@@ -129,6 +129,17 @@ CLAIMS["C09"] = {
     "note": TB + "Only white-space indent prefixes are in scope (as the property says). Lexing of the printed literal as a single token is checked on the implementation.",
 }
 
+CLAIMS["C05"] = {
+    "technique": "differential: parser model (correspondence) + independent reference recogniser of the October-2021 grammar; Lean facts/witnesses only (partial)",
+    "text": "PARTIAL. Decided by (1) the parser model of C01 agreeing with the real parser on every case (tree, errors) and (2) a reference recogniser of the October-2021 "
+            "document grammar written from the spec (gramspec.rs over lexspec.rs) evaluated on the implementation: error-free ⟺ accepted and equal (kind,name) definition "
+            "lists — on all token sequences ≤5/6 over 15 tokens (~810k), 20k/200k generated documents covering every production (coverage counters in the evidence) and "
+            "their single/double token mutations, and the repo's test data. Machine-checked in Lean: accepted documents are covered whole by the tree, the top-level loop "
+            "only stops at EOF, kernel-evaluated witnesses of three repaired defects (schema without braces, comma in look-ahead, argument/object field without value) and "
+            "of the known finding (`schema{query:}`). No theorem yet relates the parser model to a grammar specification.",
+    "note": TB + "The reference recogniser is our reading of Appendix B; it shares no code with apollo-parser.",
+}
+
 ALL = [f"C{i:02d}" for i in range(1, 34)]
 NOT_APPLICABLE = {p: "check not built yet in this session (planned, see DESIGN.md §9); not a claim that the technique cannot apply"
                   for p in ALL if p not in CLAIMS}
